@@ -1,17 +1,18 @@
 (** C04 — entry points composed with the attempt: from the bytes on the wire
     to the property. *)
 From Coq Require Import String Ascii List Bool Arith NArith.
-From Raven Require Import Base.GoStr Base.GoStrB64 Spec.Json Model.Auth Spec.AuthSpec
+From Raven Require Import Base.GoStr Base.GoStrB64 Spec.Json Model.CmdTokenizer Model.Auth Spec.CmdArgs Spec.AuthSpec Proof.CmdTokenizer
   Proof.AuthFlow Proof.AuthLogin Proof.AuthPlain.
 Import ListNotations.
 
 Theorem login_end_to_end d tag fu fp u p b ens init :
-  nsp tag = true -> tag <> [] ->
-  classify_login fu fp u p = None -> ensure_sound ens -> in_domain d u p = true ->
+  atom_ok tag = true -> arg_ok (fu, u) = true -> arg_ok (fp, p) = true ->
+  line_safe u = true -> line_safe p = true ->
+  ensure_sound ens -> in_domain d u p = true ->
   imap_spec d u p (accepted b)
     (run_creds d (login_creds false true (login_line tag fu fp u p)) b ens init).
 Proof.
-  intros Nt Et C1 ES C2. rewrite (login_args_exact _ _ _ _ _ Nt Et C1). simpl run_creds.
+  intros At Au Ap _ _ ES C2. rewrite (login_args_exact _ _ _ _ _ At Au Ap). simpl run_creds.
   now apply imap_attempt_spec.
 Qed.
 
